@@ -8,6 +8,7 @@ import (
 	"net"
 	"net/netip"
 	"sort"
+	"strconv"
 	"strings"
 	"sync"
 	"testing/synctest"
@@ -54,15 +55,18 @@ func (c *capConn) SetWriteDeadline(time.Time) error       { return nil }
 
 // v4cfg is one DHCPv4 configuration: pool geometry, number of clients and how each reaches the server.
 type v4cfg struct {
-	name      string
-	cidr      string
-	gateway   string
-	clients   int
-	hostile   int      // the first `hostile` clients also send the hostile / rare symbols
-	fine      bool     // adds the time steps 59 s and 1 s
-	core      bool     // reduced alphabet (15 symbols for 2 clients) for the deep exhaustive part
-	focus     string   // "dr": the decline / release / hostile-request / pool-cycling alphabet (18 symbols for 2 clients)
-	transport []string // per client: direct | relay | relay82 | mix (per message, random walks only)
+	name       string
+	cidr       string
+	gateway    string
+	clients    int
+	hostile    int      // the first `hostile` clients also send the hostile / rare symbols
+	fine       bool     // adds the time steps 59 s and 1 s
+	core       bool     // reduced alphabet (15 symbols for 2 clients) for the deep exhaustive part
+	focus      string   // "dr": the decline / release / hostile-request / pool-cycling alphabet (18 symbols for 2 clients)
+	transport  []string // per client: direct | relay | relay82 | mix (per message, random walks only)
+	resHead    int      // PoolConfig.ReservedStart: the first resHead host numbers are excluded from allocation
+	resTail    int      // PoolConfig.ReservedEnd: the last resTail host numbers are excluded from allocation
+	stateEvery int      // > 1: the lease table / pool comparison runs on every stateEvery-th message only (large pools)
 }
 
 type v4client struct {
@@ -98,6 +102,9 @@ type v4world struct {
 	gw      netip.Addr
 	usable  []netip.Addr
 	fresh   int
+	stateN  int
+	resLo   netip.Addr // last reserved head address (invalid if none)
+	resHi   netip.Addr // first reserved tail address (invalid if none)
 }
 
 func v4factory(cfg v4cfg) factory {
@@ -111,7 +118,8 @@ func newV4World(cfg v4cfg, r *rand.Rand) *v4world {
 		panic(err)
 	}
 	pm := dhcp.NewPoolManager(nil, lg)
-	pool, err := dhcp.NewPool(dhcp.PoolConfig{ID: 1, Name: "p", Network: cfg.cidr, Gateway: cfg.gateway, DNSServers: []string{"9.9.9.9"}, LeaseTime: v4Lease, ClientClass: dhcp.ClientClassResidential})
+	pool, err := dhcp.NewPool(dhcp.PoolConfig{ID: 1, Name: "p", Network: cfg.cidr, Gateway: cfg.gateway, DNSServers: []string{"9.9.9.9"}, LeaseTime: v4Lease, ClientClass: dhcp.ClientClassResidential,
+		ReservedStart: cfg.resHead, ReservedEnd: cfg.resTail})
 	if err != nil {
 		panic(err)
 	}
@@ -126,9 +134,20 @@ func newV4World(cfg v4cfg, r *rand.Rand) *v4world {
 	w.prefix = netip.MustParsePrefix(cfg.cidr).Masked()
 	w.gw = netip.MustParseAddr(cfg.gateway)
 	// usable addresses, computed independently of the pool's own arithmetic
+	// (PoolConfig: "first N IPs reserved (e.g., 10 for .1-.10)", "last N IPs reserved": host numbers 1..N and the last N before the broadcast address)
 	bc := lastAddr(w.prefix)
+	var hosts []netip.Addr
 	for a := w.prefix.Addr().Next(); a.IsValid() && w.prefix.Contains(a) && a != bc; a = a.Next() {
-		if a != w.gw {
+		hosts = append(hosts, a)
+	}
+	if cfg.resHead > 0 && len(hosts) > 0 {
+		w.resLo = hosts[min(cfg.resHead, len(hosts))-1]
+	}
+	if cfg.resTail > 0 && len(hosts) > 0 {
+		w.resHi = hosts[max(len(hosts)-cfg.resTail, 0)]
+	}
+	for _, a := range hosts {
+		if a != w.gw && !w.reserved(a) {
 			w.usable = append(w.usable, a)
 		}
 	}
@@ -143,6 +162,11 @@ func newV4World(cfg v4cfg, r *rand.Rand) *v4world {
 	go srv.VerifC02LeaseCleanup(ctx) // the real cleanup loop, on the bubble's virtual clock
 	synctest.Wait()                  // its ticker exists now (period 1 min from t0)
 	return w
+}
+
+// reserved: a is one of the configured reserved head / tail host addresses.
+func (w *v4world) reserved(a netip.Addr) bool {
+	return (w.resLo.IsValid() && a.Compare(w.resLo) <= 0) || (w.resHi.IsValid() && a.Compare(w.resHi) >= 0)
 }
 
 func lastAddr(p netip.Prefix) netip.Addr {
@@ -179,6 +203,8 @@ func (w *v4world) classify(v string) string {
 		return "network"
 	case a == lastAddr(w.prefix):
 		return "broadcast"
+	case w.reserved(a):
+		return "reserved"
 	}
 	return ""
 }
@@ -549,7 +575,7 @@ func (w *v4world) release(c *v4client, kind string, ciaddr net.IP) bool {
 	_, tr := w.exchange(c, dhcpv4.MessageTypeRelease, nil, ciaddr, true)
 	own := holds && hv == ciaddr.String()
 	w.m.log("%s:%s(%s)[%s]", c.name, kind, ciaddr, tr)
-	w.m.onRelease(c.name, "", own, now, holds && w.serverLease(c) == hv)
+	w.m.onRelease(c.name, "", own, now, holds && !own && w.serverLease(c) == hv) // kept is only read when the message did not name the own value
 	if own {
 		w.m.count("releases_of_own_binding", 1)
 	}
@@ -706,24 +732,31 @@ func (w *v4world) macName(mac string) string {
 		}
 	}
 	if strings.HasPrefix(mac, "02:c0:02:01:") {
-		var hi, lo int
-		fmt.Sscanf(mac[12:], "%x:%x", &hi, &lo)
-		return fmt.Sprintf("F%d", hi<<8|lo)
+		if b, err := hex.DecodeString(mac[12:14] + mac[15:17]); err == nil && len(mac) == 17 {
+			return "F" + strconv.Itoa(int(b[0])<<8|int(b[1]))
+		}
 	}
 	return mac
 }
 
 // checkState compares the server's lease table, circuit-id index and pool with each other and with the reference table.
 func (w *v4world) checkState(comp string) {
+	if w.cfg.stateEvery > 1 {
+		if w.stateN++; w.stateN%w.cfg.stateEvery != 0 {
+			return
+		}
+	}
 	now := time.Now()
 	leases := w.srv.VerifC02Leases()
 	snap := w.pool.VerifC02Snapshot()
 	w.m.count("state_snapshots_compared", 1)
 	byIP := map[string]string{}
 	byMAC := map[string]dhcp.VerifC02Lease{}
+	byName := map[string]bool{}
 	for _, l := range leases {
 		ip := l.IP.String()
 		byMAC[l.MAC] = l
+		byName[w.macName(l.MAC)+"|"+ip] = true
 		if o, dup := byIP[ip]; dup {
 			w.m.viol(comp, "table-unique", "two-leases-one-address", ip, "lease table binds %s to %s and %s", ip, w.macName(o), w.macName(l.MAC))
 		}
@@ -738,13 +771,7 @@ func (w *v4world) checkState(comp string) {
 			if !now.Before(b.exp) {
 				continue
 			}
-			found := false
-			for _, l := range leases {
-				if w.macName(l.MAC) == c && l.IP.String() == b.v {
-					found = true
-				}
-			}
-			if !found {
+			if !byName[c+"|"+b.v] {
 				w.m.viol(comp, "lease-pool-consistency", "binding-without-lease", b.v, "%s was acknowledged %s (unexpired, not released) but the lease table has no such lease", c, b.v)
 			}
 		}
